@@ -29,6 +29,8 @@ def programs(tier):
     out.append(('siblings', doc({'tag': 'a', 'onerror': fb, 'children': [L(0)]}, 'mid',
                                 {'tag': 'b', 'onerror': fb2, 'children': [L(1)]}), o3(0, 1)))
     out.append(('omit', doc({'tag': 'a', 'omit': '', 'onerror': fb, 'children': ['p', L(0), 'q']}), o3(0)))
+    out.append(('omit-expression', doc({'tag': 'a', 'omit': py('ov'), 'static': [['class', 'k']], 'onerror': fb,
+                                        'children': ['p', L(0), 'q']}), o3(0) + [['ov', 'bool', 0]]))
     out.append(('repeat', doc({'tag': 'a', 'indent': 2, 'repeat': ['x', py('seq')], 'onerror': fb,
                                'children': ['i', {'interp': py('L(0) if x == 1 else x')}]}),
                 [[0, 'out3', 0], ['seq', 'lenN', 1]]))
@@ -205,6 +207,12 @@ def macro_pairs():
         F(0))
     add('failure-then-use-again', el('div', hide(m), el('a', use('m'), onerror=['text', py("error.type.__name__")]), '|',
                                      el('b', use('m'), onerror=['structure', py("'<s>E</s>'")])), F(0))
+    # tal:on-error on the element that fills a slot, and on the element that defines a macro (used elsewhere)
+    mslot = el('p', 'M[', el('b', 'dflt', define_slot='s'), ']', define_macro='mslot')
+    add('handler-on-the-filler', el('div', hide(mslot), 'A', use('mslot', el('i', 'F ', I('L(0)'), ' t', fill_slot='s',
+                                                                            static=[['class', 'k']], onerror=['text', py("'EF'")])), 'Z'), F(0))
+    mg2 = el('p', 'M ', I('L(0)'), ' tail', define_macro='mg2', static=[['id', 'm']], onerror=['text', py("'EM'")])
+    add('handler-on-the-macro-definition', el('div', hide(mg2), 'A', use('mg2'), 'Z'), F(0))
     return out
 
 
